@@ -29,6 +29,10 @@ def dispatch (j : Json) : R Json := do
   | "beads_model" => handleBeadsModel j
   | "populations" => handlePopulations j
   | "select_pairs" => handleSelectPairs j
+  | "sample_plan" => handleSamplePlan j
+  | "process_table" => handleProcessTable j
+  | "read_filter" => handleReadFilter j
+  | "schema" => handleSchema j
   | "ping" => pure (Json.mkObj [("pong", Json.bool true)])
   | _ => throw s!"unknown op {op}"
 
